@@ -5,7 +5,7 @@ reset (or toolkit.reset_metrics), then a shared continuation on the reset object
 fresh one, long enough to wrap windows twice."""
 from __future__ import annotations
 import time
-from ..common import Rng, Report, budget
+from ..common import Rng, Report, budget, ckey
 from ..registry import SPECS, Spec, fresh_cfg, public_cfg, new_metric
 from ..engine import observe, same_obs, obs_json, snapshot, snap_equal
 from ..hist import random_ops, apply_op, describe_ops, same_step
@@ -43,7 +43,7 @@ def one(rep: Report, rng: Rng, spec: Spec, cfg0: dict):
         reset_metrics([a])
     f = new_metric(spec, cfg)
     rep.count(f"class:{spec.name}")
-    rep.case(nontrivial_key=(spec.name, repr(public_cfg(cfg)), rep.evaluations) if nupd else None,
+    rep.case(nontrivial_key=(spec.name, repr(public_cfg(cfg)), ckey(pre), ckey(cont)) if nupd else None,
              sample={"class": spec.name, "cfg": public_cfg(cfg), "before_reset": len(pre), "continuation": len(cont)} if rep.evaluations % 401 == 0 else None)
     steps = [("o",)] + cont + [("o",)]
     for k, op in enumerate(steps):
